@@ -12,6 +12,8 @@ var table = map[string]func(*checks.Run){
 	"FIX": checks.Fixtures,
 	"C02": checks.C02,
 	"C19": checks.C19,
+	"C18": checks.C18,
+	"C03": checks.C03,
 	"C06": checks.C06,
 	"C07": checks.C07,
 	"C10": checks.C10,
